@@ -263,7 +263,7 @@ static inline Plan gen_lifecycle(Rng rng, int nops_max, bool rich_before_cleanup
         if (q.life == L_RAW) { if (c < 85) G.init(s, G.r.below(3), 0, PREFILL[G.r.below(10)]); else G.zero(s); continue; }
         if (q.life != L_INIT) {
             // cleaned / zeroed / failed: cleanup again, use after cleanup, re-init
-            if (c < 30) G.init(s, G.r.below(3), G.r.chance(1, 8) ? 1 : 0, c < 10 ? 5 : PREFILL[G.r.below(10)]);     // one in eight (re-)initialisations runs out of memory
+            if (c < 30) G.init(s, G.r.below(3), G.r.chance(1, 8) ? (G.r.chance(1, 3) ? -1 : 1) : 0, c < 10 ? 5 : PREFILL[G.r.below(10)]);     // one in eight (re-)initialisations runs out of memory
             else if (c < 50) G.cleanup(s);
             else if (c < 55) { Op &o = G.emit(OP_CLEANUP, s); o.flags |= F_NULLOBJ; }
             else if (c < 62) G.zero(s);
@@ -285,7 +285,7 @@ static inline Plan gen_lifecycle(Rng rng, int nops_max, bool rich_before_cleanup
 // C16: an init with an injected allocation failure, every prior handle content class, then a tail
 static inline Plan gen_failinit(Rng rng, uint64_t run) {
     Gen G(rng);
-    int kind = OBJ_KINDS[run % 6]; int cpu = (run / 6) % 3; int prefill = (run / 18) % 7; int k = 1 + (run / 126) % 2;
+    int kind = OBJ_KINDS[run % 6]; int cpu = (run / 6) % 3; int prefill = (run / 18) % 7; static const int FAILK[] = {1, 2, -1}; int k = FAILK[(run / 126) % 3];
     int s = G.add_slot(kind);
     int other = G.add_slot(prefill == 6 ? kind : OBJ_KINDS[G.r.below(6)]);
     if (prefill == 6 || G.r.chance(1, 2)) { G.init(other, G.r.below(3)); G.valid_key(other, true); }
